@@ -164,7 +164,9 @@ def run(tier):
     recs = read_ndjson(outp)
     fresh = {r["file"]: r for r in recs if r["kind"] == "fresh"}
     for r in recs:
-        ref = seq[r["file"]] if r["file"] >= 200000 or r["file"] < 100000 else fresh[r["file"]]
+        # (a load the rayon-free build did not get to - e.g. its plain load of the file failed - differs from it)
+        missing = {"hash": "-", "res": "not-loaded-by-the-sequential-build"}
+        ref = seq.get(r["file"], missing) if r["file"] >= 200000 or r["file"] < 100000 else fresh.get(r["file"], missing)
         r["seqhash"] = ref["hash"]
         r["seqres"] = ref["res"]
     if sum(1 for r in recs if r["kind"] == "shared") < 20:
